@@ -16,7 +16,7 @@ VARIABLE pos
 
 Verdicts(c) ==
   LET den == DenDev(c.prog, Range(c.dev))
-      pm == PredMap(c.prog)
+      pm == PredMap(ExpandMakes(c.prog))
       dev == Range(c.dev)
       \* mutually recursive groups for which only the interval is prescribed
       loose == {k \in 1..Len(c.prog.rec) : ~ExactComp(pm, c.prog.rec[k])}
